@@ -102,6 +102,26 @@ fn matches_history(ex: &mut Exec) -> Result<Option<usize>, String> {
     Ok(None)
 }
 
+fn closest_diff(ex: &mut Exec) -> String {
+    let Some(db) = ex.db.as_ref() else { return String::new() };
+    let obs = match catch_unwind(AssertUnwindSafe(|| db.begin_read().map_err(|e| e.to_string()).and_then(|t| observe_read(&t)))) {
+        Ok(Ok(o)) => o,
+        _ => return "unreadable".into(),
+    };
+    let psp = catch_unwind(AssertUnwindSafe(|| ex.observe_psp_ids())).ok().and_then(|r| r.ok());
+    let mut out = String::new();
+    for v in (0..ex.versions.len()).rev() {
+        let st = &ex.versions[v];
+        if expected_obs(&st.tables) == obs {
+            out.push_str(&format!("tables equal version {v} of {} but its savepoints are {:?} and the file lists {:?}; ", ex.versions.len() - 1, st.psp.keys().collect::<Vec<_>>(), psp));
+            return out;
+        }
+    }
+    let last = ex.versions.len() - 1;
+    out.push_str(&crate::obs::diff(&expected_obs(&ex.versions[last].tables), &obs));
+    out
+}
+
 pub fn judge(plan: &Plan, image: Vec<u8>, versions: &[std::sync::Arc<crate::model::DbState>]) -> Verdict {
     let mut cfg = plan.cfg.clone();
     cfg.deep_oracles = false;
@@ -129,7 +149,7 @@ pub fn judge(plan: &Plan, image: Vec<u8>, versions: &[std::sync::Arc<crate::mode
                         return Verdict::Violation(Viol {
                             prop: "C12".into(),
                             tag: if clean { "certified-damage".into() } else { "repair-wrong-state".into() },
-                            detail: format!("check_integrity() returned Ok({clean}) but the contents served equal no commit point of the history"),
+                            detail: format!("check_integrity() returned Ok({clean}) but the contents served equal no commit point of the history; against the newest: {}", closest_diff(&mut ex)),
                         });
                     }
                     Err(e) => {
@@ -248,6 +268,19 @@ fn draw(rng: &mut Rng, image: &[u8], n: usize, slice: u64) -> Vec<Alteration> {
 }
 
 pub fn execute_corrupt(plan: &Plan, seed: u64, cases: usize, only: Option<&Extra>) -> RunOut {
+    // a replay names the alteration but not which kind of closed image it was applied to: try the
+    // cleanly closed file first, then the power-loss image
+    if only.is_some() {
+        let a = execute_corrupt_on(plan, seed, cases, only, Some(false));
+        if a.viol.is_some() {
+            return a;
+        }
+        return execute_corrupt_on(plan, seed, cases, only, Some(true));
+    }
+    execute_corrupt_on(plan, seed, cases, only, None)
+}
+
+fn execute_corrupt_on(plan: &Plan, seed: u64, cases: usize, only: Option<&Extra>, force_base: Option<bool>) -> RunOut {
     let mut out = RunOut {
         viol: None,
         exec: ExecStats::default(),
@@ -262,6 +295,7 @@ pub fn execute_corrupt(plan: &Plan, seed: u64, cases: usize, only: Option<&Extra
     // the closed image to damage: the cleanly closed file, or (one run in three) the file as a
     // power loss at the end of the run leaves it, with nothing un-synced surviving
     let crash_base = rng.chance(1, 3);
+    let crash_base = force_base.unwrap_or(crash_base);
     let mut base = Exec::new(plan.cfg.clone(), Mode::Strict);
     let mut crash_image = None;
     let r = catch_unwind(AssertUnwindSafe(|| {
@@ -305,7 +339,15 @@ pub fn execute_corrupt(plan: &Plan, seed: u64, cases: usize, only: Option<&Extra
             eprintln!("TRACE alteration {}", serde_json::to_string(&a).unwrap());
         }
         match judge(plan, img, &base.versions) {
-            Verdict::Violation(v) => {
+            Verdict::Violation(mut v) => {
+                v.detail.push_str(&format!("; base {}; alteration {a:?}", if crash_base { "power-loss image" } else { "cleanly closed file" }));
+                if crate::runner::known_finding(&v).is_some() {
+                    let line = format!("KNOWN-FINDING: property={} {}", v.prop, crate::runner::known_finding(&v).unwrap());
+                    if !out.known.contains(&line) {
+                        out.known.push(line);
+                    }
+                    continue;
+                }
                 out.viol = Some((v, Extra::Corrupt(a)));
                 return out;
             }
